@@ -51,14 +51,15 @@ Proof. exact offered_when_pending. Qed.
 Print Assumptions C20_gate_offered_when_pending.
 
 Theorem C20_gate_unrequest_never_deletes_remote :
-  forall (w : gworld) (st : gst) (e : gent) (st' : gst) (acts : list gact),
-  g_unrequest w st e = (st', acts) ->
+  forall (w : gworld) (bp : bool) (st : gst) (e : gent) (st' : gst) (acts : list gact),
+  g_unrequest w bp st e = (st', acts) ->
   (forall a : gact,
    In a acts ->
    a = GPushLocal (g_key e) \/ (exists p : path, a = GDeleteLocal p /\ g_path (g_loc e) = Some p)) /\
   (kmem (g_key e) (g_req st) = true ->
-   kmem (g_key e) (g_req st') = false /\ kmem (g_key e) (g_exc st') = true) /\
+   local_leaf w e -> kmem (g_key e) (g_req st') = false /\ kmem (g_key e) (g_exc st') = true) /\
   (kmem (g_key e) (g_req st) = true ->
+   local_leaf w e ->
    find_ent (g_ents st) (g_key e) = Some e ->
    g_path (g_loc e) <> None ->
    exists e' : gent,
@@ -67,26 +68,29 @@ Theorem C20_gate_unrequest_never_deletes_remote :
      is_local_deletion e' = false /\
      g_oid (g_rem e') = g_oid (g_rem e) /\
      g_exists (g_rem e') = g_exists (g_rem e) /\ g_path (g_rem e') = g_path (g_rem e)) /\
-  (kmem (g_key e) (g_req st) = false -> st' = st).
+  (kmem (g_key e) (g_req st) = false -> g_req st' = g_req st /\ g_exc st' = g_exc st).
 Proof. exact unrequest_never_deletes_remote. Qed.
 Print Assumptions C20_gate_unrequest_never_deletes_remote.
 
 Theorem C20_gate_request_registers :
-  forall (w : gworld) (st : gst) (e : gent) (st' : gst) (plan : list N),
+  forall (w : gworld) (st : gst) (e : gent) (st' : gst) (plan : option (list N)),
   find_ent (g_ents st) (g_key e) = Some e ->
   g_request w st e = (st', plan) ->
   kmem (g_key e) (g_req st') = true /\
   kmem (g_key e) (g_exc st') = false /\
-  (exists pre : list N, plan = pre ++ g_key e :: nil) /\
-  (exists e' : gent,
-     find_ent (g_ents st') (g_key e) = Some e' /\
-     g_changed (g_rem e') = true /\
-     g_latest e' = false /\
-     g_oid (g_rem e') = g_oid (g_rem e) /\
-     (forall p : path,
-      g_path (g_loc e) = Some p ->
-      pmem p (w_lpaths w) = false ->
-      g_oid (g_loc e') = None /\ g_sync_hash (g_rem e') = None /\ g_sync_path (g_rem e') = None)).
+  (plan = None <-> g_path (g_rem e) = None) /\
+  (forall pl : list N,
+   plan = Some pl ->
+   (exists pre : list N, pl = pre ++ g_key e :: nil) /\
+   (exists e' : gent,
+      find_ent (g_ents st') (g_key e) = Some e' /\
+      g_changed (g_rem e') = true /\
+      g_latest e' = false /\
+      g_oid (g_rem e') = g_oid (g_rem e) /\
+      (forall p : path,
+       g_path (g_loc e) = Some p ->
+       pmem p (w_lpaths w) = false ->
+       g_oid (g_loc e') = None /\ g_sync_hash (g_rem e') = None /\ g_sync_path (g_rem e') = None))).
 Proof. exact request_registers. Qed.
 Print Assumptions C20_gate_request_registers.
 
@@ -429,7 +433,7 @@ Definition ex_rem : gside :=
   {| g_oid := Some 10; g_path := Some [2; 7]; g_changed := true; g_exists := XExists; g_hash := Some 1;
      g_sync_hash := None; g_sync_path := None; g_size := 3; g_mtime := 5 |}.
 Definition ex_ent : gent :=
-  {| g_key := 1; g_loc := cleared; g_rem := ex_rem; g_dir := false; g_latest := false; g_discarded := false;
+  {| g_key := 1; g_loc := cleared; g_rem := ex_rem; g_dir := false; g_lfresh := true; g_rfresh := false; g_discarded := false;
      g_conflicted := false |}.
 Definition ex_w : gworld := {| w_lpaths := []; w_loids := []; w_lhash := [] |}.
 Definition ex_st (req exc : list N) : gst := {| g_ents := [ex_ent]; g_changeset := [1]; g_req := req; g_exc := exc |}.
@@ -442,7 +446,7 @@ Example ex_gate_requested_passes : reaches_sync (fun _ => false) ex_w (ex_st [1]
 Proof. vm_compute. reflexivity. Qed.
 (* the predicate is consulted only once the entry is up to date (the first pass is the get_latest): two passes *)
 Definition ex_ent_latest : gent :=
-  {| g_key := 1; g_loc := cleared; g_rem := ex_rem; g_dir := false; g_latest := true; g_discarded := false;
+  {| g_key := 1; g_loc := cleared; g_rem := ex_rem; g_dir := false; g_lfresh := true; g_rfresh := true; g_discarded := false;
      g_conflicted := false |}.
 Definition ex_st2 : gst := {| g_ents := [ex_ent_latest]; g_changeset := [1]; g_req := []; g_exc := [] |}.
 Example ex_gate_matched_passes :
